@@ -1,14 +1,14 @@
 """C03 -- any chain of format conversions preserves the interface."""
 import itertools
 
-from .. import coqbuild, irtools as T
+from .. import argtie, coqbuild, irtools as T
 from ..common import CORPUS_SEED, GLOBAL_TRUSTED_BASE
 from ..model import call_many
 from ..normtools import enc_def, enc_typ, state_of
 from ..pool import guarded, run_cases
 
 THEOREMS = ["C03_chain", "C03_commute", "C03_refuted_absent_via_function", "C03_refuted_none_via_docstring",
-            "C03_refuted_negative_int_via_docstring", "C03_refuted_argparse_zero", "C03_nonvacuous"]
+            "C03_refuted_negative_int_via_docstring", "C03_refuted_argparse_zero", "C03_nonvacuous", "C03_argparse_row_derived", "C03_argparse_row_examples"]
 FORMATS = ["class", "pydantic", "function", "argparse", "docstring"]
 
 
@@ -190,9 +190,12 @@ def run(ctx):
     for cls, det, ir in items:
         ctx.item(cls, {"stage": "implementation chains (emit -> text -> parse at each hop)", "clause": cls, "input": T.jsonable(ir) if ir else None,
                        "detail": det}, corpus_key=det.get("corpus_key") if isinstance(det, dict) else None)
+    # Model/ArgRead.v (C03_argparse_row_derived) against parse_out_param
+    n_arg, arg_bad = argtie.compare([argtie.gen(ctx.rng) for _ in range(300 if ctx.quick else 8000)])
+    corr = list(corr) + arg_bad[:3]
     if not ctx.violations:
         if corr:
-            ctx.violation({"stage": "correspondence: Model/Norm.v N vs one implementation hop", "detail": corr[:3],
+            ctx.violation({"stage": "correspondence: Model/Norm.v N vs one implementation hop; Model/ArgRead.v vs the argparse reader", "detail": corr[:3],
                            "n_disagreements": len(corr)}, no_input=True)
         elif not status["ok"]:
             ctx.violation({"stage": "proof", "theorem": status.get("failing_theorem"),
